@@ -83,6 +83,13 @@ var handlers = map[string]func(json.RawMessage) (any, error){
 		}
 		return vrun.Run(&req), nil
 	},
+	"func": func(b json.RawMessage) (any, error) {
+		var req vrun.FuncRequest
+		if err := json.Unmarshal(b, &req); err != nil {
+			return nil, err
+		}
+		return vrun.CallFunc(&req), nil
+	},
 }
 
 func handle(env *Envelope) any {
@@ -298,6 +305,18 @@ func RunCase(req *vrun.Request) *vrun.Answer {
 			panic("harness failure: " + cerr.Harness)
 		}
 		return &vrun.Answer{ProcessDeath: cerr.Death}
+	}
+	return ans
+}
+
+// CallFunction sends a built-in function call to the shared worker.
+func CallFunction(req *vrun.FuncRequest) *vrun.FuncAnswer {
+	ans := &vrun.FuncAnswer{}
+	if cerr := sharedWorker.Call("func", req, ans, 30*time.Second); cerr != nil {
+		if cerr.Harness != "" {
+			panic("harness failure: " + cerr.Harness)
+		}
+		return &vrun.FuncAnswer{ProcessDeath: cerr.Death}
 	}
 	return ans
 }
